@@ -1,4 +1,4 @@
 SPECIFICATION Spec
 CONSTANTS
-  WorldSel = {0}
+  WorldSel = {1, 2}
 INVARIANTS EmitWorld Emit
